@@ -46,3 +46,28 @@ package larking
 //@   ensures [legal-value] LegalTimeout(s) ==> d == min(DecVal(s[:len(s)-1]) * UnitOf(s[len(s)-1]), MaxInt64)
 //@   ensures [malformed-refused] err == nil ==> LegalTimeout(s)
 //@   oracle (err != nil || verifLegalTimeout(s)) && (!verifLegalTimeout(s) || err == nil)
+
+// grpc-message percent-encoding (gRPC PROTOCOL-HTTP2: bytes < 0x20, > 0x7E and
+// '%' become %XX, everything else is verbatim). EL(msg,k) is the encoded
+// length of msg[:k].
+//@ spec Esc(c) = c < 32 || c > 126 || c == 37
+//@ rec EL(msg, k) Int = k <= 0 ? 0 : EL(msg, k-1) + (Esc(msg[k-1]) ? 3 : 1)
+//@ spec Hex(d) = d < 10 ? 48 + d : 87 + d
+//@ spec EncAt(out, msg, j) = Esc(msg[j])
+//@      ? (out[EL(msg,j)] == 37 && out[EL(msg,j)+1] == Hex(msg[j]/16) && out[EL(msg,j)+2] == Hex(msg[j]%16))
+//@      : out[EL(msg,j)] == msg[j]
+//@ spec Enc(out, msg) = len(out) == EL(msg, len(msg)) && (forall j :: 0 <= j && j < len(msg) ==> EncAt(out, msg, j))
+
+//@ func encodeGrpcMessage serves C05
+//@   ensures [encoding] Enc(result, msg)
+//@   oracle result == verifEncodeGrpcMessage(msg)
+//@   loop 1 invariant 0 <= pos && pos <= i && i <= len(msg)
+//@   loop 1 invariant len(sbstr(&sb)) == EL(msg, pos)
+//@   loop 1 invariant forall j :: pos <= j && j <= i ==> EL(msg, j) == EL(msg, pos) + (j - pos)
+//@   loop 1 invariant forall j :: pos <= j && j < i ==> !Esc(msg[j])
+//@   loop 1 invariant forall j :: 0 <= j && j < pos ==> EncAt(sbstr(&sb), msg, j)
+//@   loop 1 invariant forall j :: 0 <= j && j < pos ==> EL(msg, j) + (Esc(msg[j]) ? 3 : 1) <= EL(msg, pos)
+//@   loop 1 invariant forall j :: 0 <= j && j <= pos ==> 0 <= EL(msg, j)
+//@   loop 1 invariant pos > 0 ==> Esc(msg[pos-1])
+//@   loop 1 unfold EL(msg, i+1)
+//@   loop 1 decreases len(msg) - i
